@@ -487,6 +487,7 @@ def run_multi(c):
             rows2.append(al.align(ref, f, [Peak(p, 10.) for p in c['peaks2']], rev2))
         sec = [r.setAlignedRest(True) for r in rows2 if r.alignedPairs]
         f2 = AlignmentResults.filterOutSubsequentAlignmentsForSingleQuery(sec)
+        out['rows2'] = [canon_row(r) for r in f2]
         stage = 'resolve'
         joined, separate = AlignmentResults.resolve([row1] + f2, c['maxdiff'])
         out['joined'] = [canon_row(r) for r in joined]; out['separate'] = [canon_row(r) for r in separate]
